@@ -3,7 +3,11 @@ from vf.gen import render as R
 
 BIG = [2 ** 31, 2 ** 53, 2 ** 63, 2 ** 64, 10 ** 22, 2 ** 100]
 CMP_OPS = ["==", "!=", "<>", "<", "<=", ">", ">="]
-STRS = ["", "a", "b", "ab", "abc", "x y", "it's", "A", "10", "é"]
+STRS = ["", "a", "b", "ab", "abc", "x y", "it's", "A", "10", "é",
+        # strings spelled like keywords and operators: a literal is a value
+        # wherever it stands
+        "not", "in", "is", "and", "or", "empty", "zero", "then", "do", "end",
+        "NULL", "TRUE", "*", "to", "keys", "def"]
 
 
 # ------------------------------------------------------------------ C02
@@ -183,7 +187,7 @@ class ExprGen:
             ka = self.any_kind()
             kb = ka if ch.bool(0.7) else self.any_kind()
             return ("cmp", [self.gen(ka, d + 1), self.gen(kb, d + 1)],
-                    [ch.choice(["==", "!=", "<>"])])
+                    [ch.choice(["==", "!=", "<>", "is", "is not"])])
         if k == "strcmp":
             return ("cmp", [self.gen("str", d + 1), self.gen("str", d + 1)],
                     [ch.choice(CMP_OPS)])
